@@ -208,9 +208,10 @@ def impl_multi_run(case):
     out = None
     with scripted_executor(script):
         try:
+            extra = {} if case.get("addid", 1) else {"add_run_id_field": False}
             res = strax.multi_run(script.exec_function, list(runs), max_workers=case["workers"],
                                   ignore_errors=bool(case["ignore"]), throw_away_result=bool(case["throw"]),
-                                  multi_run_progress_bar=False, log=QUIET_LOG)
+                                  multi_run_progress_bar=False, log=QUIET_LOG, **extra)
             out = "ok " + show_result_list(res, rank)
         except Exception as e:  # noqa: BLE001
             out = "err " + sl.err_name(e)
@@ -243,6 +244,19 @@ def op_multi_run(case):
     runs = sl.show_ints([rank[r] for r in case["runs"]])
     return (f"c15.mr {runs} {sl.show_ints(case['order'])} {show_results_op(case, rank)} "
             f"{int(case['ignore'])} {int(case['throw'])} {case['workers']}")
+
+
+def strip_ids(body):
+    """`ok 0:1+2,_:-,2:7` -> `ok norunid:1+2,_:-,norunid:7` (what a result without the run_id column shows)"""
+    if not body.startswith("ok ") or body in ("ok none", "ok -"):
+        return body
+    toks = [t if t.startswith("_:") else "norunid:" + t.split(":", 1)[1] for t in body[3:].split(",")]
+    return "ok " + ",".join(toks)
+
+
+def model_post_noid(line):
+    body, sep, sub = line.rpartition(" sub=")
+    return strip_ids(body) + sep + sub if sep else line
 
 
 def expected_sequential(case):
@@ -280,6 +294,8 @@ def oracle_multi_run(case, out):
     if case["throw"]:
         return None if body == "ok none" else f"throw_away_result returned {body}"
     exp = "ok " + expected_sequential(case)
+    if not case.get("addid", 1):
+        exp = strip_ids(exp)
     if body != exp:
         return f"result differs from the per-run results in run-id order: got `{body}`, sequential gives `{exp}`"
     return None
@@ -1242,6 +1258,13 @@ def run_stubs(ctx):
     ctx.correspond("multi_run/random", cases, impl_multi_run, op_multi_run, oracle_multi_run,
                    nontrivial=nontrivial_multi_run, branch=branch_multi_run,
                    rule="0..10 runs (15% with duplicate ids), workers 1..8, random full or partial completion priorities, 0..3 failing runs of random kinds")
+    noid = [dict(c, addid=0) for c in cases if not c["throw"]] + \
+           [dict(c, addid=0) for c in gen_multi_run_exhaustive(ctx) if not c["throw"] and len(c["runs"]) >= 2 and c["workers"] >= 2][:: ctx.pick(7, 1)]
+    ctx.correspond("multi_run/no-run-id-field", noid, impl_multi_run, op_multi_run, oracle_multi_run,
+                   nontrivial=nontrivial_multi_run, branch=branch_multi_run, model_post=model_post_noid,
+                   rule="the random cases and every 7th exhaustive case (>= 2 runs, >= 2 workers; all of them in the thorough tier) again with "
+                        "add_run_id_field=False (the default for super-runs): the per-run results must still come back in run-id order although no "
+                        "column says which run a block belongs to; the model's answer is compared with its run labels removed")
     cases = gen_multi_run_random(ctx, ctx.pick(150, 2000), scripted=False)
     ctx.check_oracle("multi_run/free-running", cases, impl_multi_run, oracle_multi_run, nontrivial=nontrivial_multi_run,
                      branch=branch_multi_run,
